@@ -13,6 +13,10 @@ build() { cmake -G Ninja -S $WT -B $WT/_build -DBUILD_TESTING=ON -DCMAKE_BUILD_T
 demo() {  # $1 = output binary
   case $MODE in
     hdr) clang++ -std=c++11 -g -O1 -fsanitize=address,undefined -fno-sanitize-recover=undefined -I$WT -I$WT/_build $OUT/$ID/demo.cpp -o $1 2>/dev/null;;
+    hdra) clang++ -std=c++11 -g -O1 -fsanitize=address -I$WT -I$WT/_build $OUT/$ID/demo.cpp -o $1 2>/dev/null;;
+    hdrg) g++ -std=c++11 -O2 -pthread -I$WT -I$WT/_build $OUT/$ID/demo.cpp -o $1 2>/dev/null;;
+    sh) true;;
+    dl) g++ -std=c++11 -O1 -g -pthread -rdynamic -I$WT -I$WT/_build $OUT/$ID/demo.cpp -o $1 $WT/_build/librkcommon.so -Wl,-rpath,$WT/_build -ldl 2>/dev/null;;
     so) g++ -std=c++11 -g -I$WT -I$WT/_build $OUT/$ID/demo.cpp $WT/_build/librkcommon.so -Wl,-rpath,$WT/_build -o $1 2>/dev/null;;
     so+src:*) clang++ -std=c++11 -g -O1 -fsanitize=address,undefined -fno-sanitize-recover=all -I$WT -I$WT/_build $OUT/$ID/demo.cpp $WT/${MODE#so+src:} $WT/_build/librkcommon.so -Wl,-rpath,$WT/_build -o $1 2>/dev/null;;
     gso) g++ -std=c++11 -O1 -g -pthread -I$WT -I$WT/_build $OUT/$ID/demo.cpp $WT/_build/librkcommon.so -Wl,-rpath,$WT/_build -o $1 2>/dev/null;;
@@ -25,11 +29,11 @@ demo() {  # $1 = output binary
 }
 build || { echo "$ID: clean build failed"; exit 2; }
 demo $WT/demo_clean || { echo "$ID: demo does not build on clean tree"; }
-( cd $WT && timeout 120 ./demo_clean "$@" >/dev/null 2>&1 ); CLEAN=$?
+if [ "$MODE" = sh ]; then ( timeout 900 sh $OUT/$ID/demo.sh $WT >/dev/null 2>&1 ); CLEAN=$?; else ( cd $WT && timeout 300 ./demo_clean "$@" >/dev/null 2>&1 ); CLEAN=$?; fi
 git apply $OUT/$ID/patch.diff || { echo "$ID: patch does not apply"; exit 2; }
 build; B=$?
 T=$(ctest --test-dir $WT/_build -j8 2>&1 | grep -E "tests passed|tests failed" | head -1)
 demo $WT/demo_patched
-( cd $WT && timeout 120 ./demo_patched "$@" >/dev/null 2>&1 ); PATCHED=$?
+if [ "$MODE" = sh ]; then ( timeout 900 sh $OUT/$ID/demo.sh $WT >/dev/null 2>&1 ); PATCHED=$?; else ( cd $WT && timeout 300 ./demo_patched "$@" >/dev/null 2>&1 ); PATCHED=$?; fi
 echo "$ID: build_with_patch=$B ctest='$T' demo_clean_exit=$CLEAN demo_patched_exit=$PATCHED"
 cd /; git -C /repo worktree remove --force $WT
